@@ -161,6 +161,9 @@ func run(rc *runConfig) int {
 		return 2
 	}
 	loadS := time.Since(start).Seconds()
+	for _, n := range prog.loadNotes {
+		fmt.Printf("NOTE property=%s %s\n", rc.prop, n)
+	}
 	var names []string
 	for _, n := range prog.spec.Order {
 		fs := prog.spec.Funcs[n]
